@@ -193,10 +193,25 @@ func (runInfo *runInfoStruct) invokeLetItemSlice(expr *ast.ItemExpr, item reflec
 			runInfo.rv = nilValue
 			return
 		}
+		// the append writes into spare capacity, which the slice may share with
+		// others: remember that slot, the assignment below can still fail
+		var spare, old reflect.Value
+		if item.Len() < item.Cap() {
+			spare = item.Slice(0, item.Len()+1).Index(item.Len())
+			old = reflect.New(spare.Type()).Elem()
+			old.Set(spare)
+		}
 		item = reflect.Append(item, value)
 		runInfo.rv = item
 		runInfo.expr = expr.Item
 		runInfo.invokeLetExpr()
+		if runInfo.err != nil {
+			if spare.IsValid() {
+				// an error leaves the storage as it was
+				spare.Set(old)
+			}
+			return
+		}
 		runInfo.rv = item.Index(index)
 		return
 	}
